@@ -140,8 +140,8 @@ def _worker(args):
 
 def opt_partitions(mod, tier):
     """partitions that are run a second time in a child interpreter started with `-O -W error` (assert statements and
-    `if __debug__:` blocks removed; every warning raised as an exception, as under pytest's filterwarnings=error): a library must
-    behave the same there.  A module may name them (OPT_PARTITIONS(tier)); the default is every partition
+    `if __debug__:` blocks removed; every warning raised as an exception, as under pytest's filterwarnings=error; root logger at DEBUG;
+    another PYTHONHASHSEED than the parent's): a library must behave the same there.  A module may name them (OPT_PARTITIONS(tier)); the default is every partition
     of a module that sets OPT_QUICK_ALL, else every third one (quick) / every second one (thorough)."""
     if getattr(mod, "NO_OPT_PASS", False):
         return []
@@ -172,6 +172,7 @@ def _opt_worker(args):
     modname, part, tier, seed = args
     env = dict(os.environ)
     env["PYTHONPATH"] = ROOT
+    env["PYTHONHASHSEED"] = "20261003"          # (another string-hash order than the parent's, which runs with seed 0)
     try:
         p = subprocess.run([sys.executable, "-O", "-W", "error", "-c", "from vf.runner import opt_child; opt_child()", modname, tier, str(seed), os.environ["VF_REPO"]],
                            input=jdump(part).encode(), capture_output=True, env=env, cwd=ROOT, timeout=3600)
@@ -194,6 +195,10 @@ def opt_child():
     assert False, "this interpreter must run with -O"          # (stripped under -O; without -O the child refuses to run)
     modname, tier, seed, repo = sys.argv[1:5]
     part = json.loads(sys.stdin.read())
+    # the application around the library has DEBUG logging switched on (records go to a sink): whatever the library logs is evaluated
+    import io
+    import logging
+    logging.basicConfig(level=logging.DEBUG, stream=io.StringIO(), force=True)
     setup_repo(repo)
     out = sys.stdout.buffer
     sys.stdout = sys.stderr                     # whatever the partition prints must not corrupt the result
@@ -238,8 +243,10 @@ def main(argv=None):
                 import subprocess
                 env = dict(os.environ)
                 env["PYTHONPATH"] = ROOT
+                env["PYTHONHASHSEED"] = "20261003"
                 p = subprocess.run([sys.executable, "-O", "-W", "error", "-c",
-                                    "import sys, json; from vf import runner; runner.setup_repo(sys.argv[2]); import importlib; "
+                                    "import sys, json, io, logging; logging.basicConfig(level=logging.DEBUG, stream=io.StringIO(), force=True); "
+                                    "from vf import runner; runner.setup_repo(sys.argv[2]); import importlib; "
                                     "m = importlib.import_module(sys.argv[1]); print(runner.jdump(m.replay(json.loads(sys.stdin.read()))))",
                                     modname, os.environ["VF_REPO"]], input=jdump(case[1]).encode(), capture_output=True, env=env, cwd=ROOT)
                 if p.returncode != 0:
